@@ -610,6 +610,9 @@ class RunStorage(ExecKernel):
             self.gfset(I, "fail_phase", z3.IntVal(2))
             I.throw_from_callee("GraphView::start")
         self.gfset(I, "started", z3.BoolVal(True))
+        # a stop may be requested while the graph starts (a start hook, another thread): the flag can only be raised
+        self.stop_in_start = z3.Bool("stop_requested_during_start")
+        ctx.write(Loc((self.stop.oid, "v")), z3.Or(ctx.store[(self.stop.oid, "v")], self.stop_in_start))
         nst = ctx.fresh("nst_after_start")
         ctx.assume(z3.And(nst <= MAX_DT, z3.Or(nst == MAX_DT, nst >= t)))  # start_impl ensures
         self.gfset(I, "nst", nst)
@@ -656,6 +659,9 @@ class RunStorage(ExecKernel):
             nst <= MAX_DT, z3.Or(nst == MAX_DT, z3.And(nst > le, nst >= self.start)))
         yield "counter-nonneg", ctx.store[(self.st.oid, "consecutive_immediate_cycles")] >= 0
         yield "no-failure", self.gfget(ctx, "fail_phase") == 0
+        if getattr(self, "stop_in_start", None) is not None:
+            yield "a-stop-requested-during-start-stays-requested,and-nothing-was-evaluated", z3.Implies(
+                self.stop_in_start, z3.And(ctx.store[(self.stop.oid, "v")], self.gfget(ctx, "evals") == 0))
         for x in self.extra_inv(I, ctx):
             yield x
 
@@ -684,6 +690,10 @@ class RunStorage(ExecKernel):
                    z3.And(self.gfget(ctx, "stop_storage_calls") == 1, z3.Not(self.gfget(ctx, "started")),
                           self.gfget(ctx, "start_calls") == 1), kind="post-normal")
         ctx.oblige("ensures.window-was-valid", self.start < self.end, kind="post-normal")
+        if getattr(self, "stop_in_start", None) is not None:
+            ctx.oblige("ensures.a-stop-requested-while-the-graph-starts-is-honoured:no-evaluation-follows[C17 a requested stop ends the "
+                       "run; C14 run returns with the graph stopped]", z3.Implies(self.stop_in_start, self.gfget(ctx, "evals") == 0),
+                       kind="post-normal")
         ctx.oblige("ensures.a-stop-failure-at-the-end-of-a-clean-run-reaches-the-caller[C14 the original error reaches the caller]",
                    z3.Not(self.gfget(ctx, "stop_threw")), kind="post-normal")
 
